@@ -327,7 +327,22 @@ fn check_node<L: Language>(lang: &'static LangSig, m: &NM, r: &mut Rng, tabs: &m
             bad!("bij-domain", "bij {bij:?}: keys must be the shape's slots {:?}, values the node's slots {:?}", sh.slots(), n.slots());
         }
         // (c) applying the bijection gives back the node up to bound names
-        let restored = sh.apply_slotmap(&bij);
+        // known finding KF-C16-1: a free *numeric* slot of the node that coincides with a numeric shape name of a bound slot is
+        // captured when the bijection is applied (the checks build asserts instead); reported under its own signature
+        let collides = {
+            let prv: BTreeSet<Slot> = sh.private_slot_occurrences().into_iter().collect();
+            bij.values().iter().any(|v| prv.contains(v))
+        };
+        let restored = match guard(|| sh.apply_slotmap(&bij)) {
+            Ok(r) => Some(r),
+            Err(p) => {
+                if collides && p.msg.contains("prv.contains") {
+                    None
+                } else {
+                    bad!(format!("shape-apply-bij-panic {}", p.site()), "shape.apply_slotmap(bij) panicked: {}", p.msg);
+                }
+            }
+        };
         // bound names of the restored node are numeric shape names; read them with a wider un-slot table
         let unslot2 = |s: Slot| -> Option<u32> {
             if let Some(x) = all_names.iter().copied().find(|n| slot(*n) == s) {
@@ -336,10 +351,17 @@ fn check_node<L: Language>(lang: &'static LangSig, m: &NM, r: &mut Rng, tabs: &m
             // shape names: numeric k -> 100 + k
             (0..40u32).find(|k| Slot::numeric(*k) == s).map(|k| 100 + k)
         };
-        let Some(rm) = from_elems(m.op, lang.sig(m.op), &restored.to_syntax(), &unslot2) else { bad!("restore-syntax", "cannot read {restored:?}") };
-        // the restored node may use a numeric shape name for a bound slot that coincides with a free numeric name of the node
-        // (the crate documents this as a collision hazard, not as an error), so compare alpha-keys with free names kept
-        if rm.key(true) != m.key(true) && !restored_collides(&rm, m) {
+        let same = match &restored {
+            None => false,
+            Some(r) => match from_elems(m.op, lang.sig(m.op), &r.to_syntax(), &unslot2) {
+                Some(rm) => rm.key(true) == m.key(true),
+                None => false,
+            },
+        };
+        if !same {
+            if collides {
+                return Err(("numeric-free-slot-collision".into(), format!("shape {sh:?} with bijection {bij:?}: applying the bijection captures the free numeric slot (restored: {restored:?})")));
+            }
             bad!("shape-apply-bij", "shape.apply_slotmap(bij) = {restored:?} is not alpha-equal to the node");
         }
         // (a) invariance under free renaming and alpha renaming
@@ -375,21 +397,20 @@ fn check_node<L: Language>(lang: &'static LangSig, m: &NM, r: &mut Rng, tabs: &m
     });
     match res {
         Ok(Ok(())) => true,
+        Ok(Err((sig, d))) if sig == "numeric-free-slot-collision" => {
+            // recorded (at most once per language in this worker) and the run continues with the next node
+            out.inc("numeric_collision_nodes");
+            if !out.fails.iter().any(|f| f.sig.ends_with("numeric-free-slot-collision")) {
+                out.fail(Fail::new("shape-incoherent", sig.clone(), format!("[{}] {d}", lang.name), cj.clone()));
+            }
+            true
+        }
         Ok(Err((sig, d))) => fail!(sig, "{d}"),
         Err(p) => {
             out.fail(Fail::panic("panic", &p, &format!("node {m:?} of {}", lang.name), cj.clone()));
             false
         }
     }
-}
-
-/// the numeric shape names used for bound slots can collide with numeric free names of the node (documented hazard)
-fn restored_collides(rm: &NM, m: &NM) -> bool {
-    let bound: BTreeSet<u32> = rm.occurrences().iter().filter(|x| !x.1).map(|x| x.0).collect();
-    let _ = bound;
-    let free = m.free();
-    // collision possible only if the node has numeric free names (n % 3 == 0 in `slot`)
-    free.iter().any(|x| x % 3 == 0)
 }
 
 fn run_lang<L: Language>(lang: &'static LangSig, rng: &mut Rng, n: usize, exhaustive: bool, out: &mut CaseOut) {
@@ -477,6 +498,18 @@ fn binder_lists(k: usize) -> Vec<Vec<u32>> {
 }
 
 pub fn run(args: &Args, rep: &mut Rep) {
+    if args.param_u("directed_kf1", 0) == 1 {
+        // committed witness of KF-C16-1: (lam $v1 c[$0]) - the free numeric slot $0 coincides with the shape name of the bound slot
+        let o = run_case(1, |rng| {
+            let mut out = CaseOut::default();
+            let mut tabs: Tables<LSym> = Tables { shape_to_key: HashMap::new(), key_to_shape: HashMap::new() };
+            let m = NM { op: "lam", fields: vec![MF::C(vec![1], 0, vec![0])] };
+            check_node::<LSym>(&LSYM, &m, rng, &mut tabs, &mut out);
+            out
+        });
+        rep.absorb(1, o);
+        return;
+    }
     let n = args.cases as usize;
     let exhaustive = args.param_u("exhaustive", 1) == 1 && args.shard == 0;
     let seed = Rng::mix(args.seed, args.shard);
